@@ -304,20 +304,7 @@ class Screen:
                 variant, argi = at, i
         if variant is None:
             return None
-        vidx = [v["name"] for v in w.facts.adts[variant[1]]["variants"]].index(variant[2])
-        # the switch on discriminant(arg)
-        start = None
-        for bl in sorted(cb.normal_blocks()):
-            tm = cb.term(bl)
-            if tm["k"] == "switch":
-                d = CT.operand(tm["discr"], (bl, cb.n_stmts(bl)))
-                if d == ("discr", ("load", ("arg%d" % (argi + 1),))):
-                    tg = dict((v, x) for v, x in tm["targets"])
-                    start = tg.get(vidx, tm["otherwise"])
-                    others = {x for v, x in tm["targets"] if x != start}
-                    if tm["otherwise"] != start:
-                        others.add(tm["otherwise"])
-                    break
+        start = select_arm(w, callee, argi + 1, variant[1], variant[2])
         if start is None:
             return None
         blocks = cb.reachable_from([start], removed_blocks=set())
@@ -655,3 +642,40 @@ def frame(ctx, w, rule, variant, allowed, why):
               loc=w.fn_loc(w.handler(variant)[0]),
               sample={"function": variant, "W": sorted({M.path_str(p[1:]) for p in W if p[0] == "arg1"})[:12]})
     return not bad
+
+
+def select_arm(w, callee, argn, enum_path, variant_name):
+    """Entry block of the arm that `callee` executes when its argument argN is
+    the given enum variant (the switch on the argument's discriminant)."""
+    cb = w.body(callee)
+    CT = w.terms(callee)
+    vidx = [v["name"] for v in w.facts.adts[enum_path]["variants"]].index(variant_name)
+    discr = [v["discr"] for v in w.facts.adts[enum_path]["variants"]][vidx]
+    for bl in sorted(cb.normal_blocks()):
+        tm = cb.term(bl)
+        if tm["k"] == "switch":
+            d = CT.operand(tm["discr"], (bl, cb.n_stmts(bl)))
+            if d == ("discr", ("load", ("arg%d" % argn,))):
+                tg = dict((v, x) for v, x in tm["targets"])
+                return tg.get(discr, tm["otherwise"])
+    return None
+
+
+def norm_term(t):
+    """Canonical form: min/max calls (method or free function) become
+    ('min'|'max', sorted args); Add is commutative; names dropped."""
+    t = WD.strip_names(t)
+    if not isinstance(t, tuple):
+        return t
+    if t and t[0] == "call":
+        nm = t[1]
+        args = tuple(norm_term(a) for a in t[2])
+        for k in ("min", "max"):
+            if nm in ("core::cmp::Ord::%s" % k, "core::cmp::%s" % k) or nm.endswith("::cmp::Ord>::%s" % k) or (nm.startswith("core::cmp::impls::") and nm.endswith("::%s" % k)):
+                return (k,) + tuple(sorted(args, key=repr))
+        return ("call", nm, args)
+    if t and t[0] == "binop" and t[1] in ("Add", "Mul"):
+        a, b = norm_term(t[2]), norm_term(t[3])
+        a, b = sorted((a, b), key=repr)
+        return ("binop", t[1], a, b)
+    return tuple(norm_term(x) if isinstance(x, tuple) else x for x in t)
